@@ -120,6 +120,11 @@ def handle (st : St) (line : String) : St × List String :=
       let rootE := arr.getD T.root Expr.invalid
       if big rootE then (st, [s!"skip big case {st.case} deckmodel {id}"]) else
       let flat := (List.range n).map fun i => arr.getD (n - i) Expr.invalid
+      -- The model identifies nodes structurally, the code by pointer.  When the real node list holds two
+      -- DISTINCT nodes that are structurally equal (flatten copies sub-trees per environment and the
+      -- optimiser's canonical map does not merge all of them), the real deck has a redundant clause the
+      -- model would share: not comparable clause by clause; counted, the decompilation tie still judges it.
+      if flat.eraseDups.length != flat.length then (st, [s!"skip dup-nodes case {st.case} deckmodel {id}"]) else
       let spec := Libfive.Deck.topoFlatB flat
       let M := Libfive.Deck.build flat rootE
       let o1 := if spec then s!"ok walk-spec case {st.case} node {id}"
